@@ -189,13 +189,13 @@ class Reg {
     Reg(std::initializer_list<RegListItem>): a(-7), b(-7) { log_ev("badinit", "reg", 1, -7); }
     explicit Reg(long v, bool sh = false): a(v), b(v), shared(sh) {}
     Reg(const Reg& o) { take(o); }
-    Reg(Reg&& o) noexcept { take(o); }
+    Reg(Reg&& o) { take(o); }
     Reg& operator=(const Reg& o)
     {
         assign(o);
         return *this;
     }
-    Reg& operator=(Reg&& o) noexcept
+    Reg& operator=(Reg&& o)
     {
         assign(o);
         return *this;
@@ -218,10 +218,19 @@ class Reg {
     long value() const { return a == b ? a : -(a * 1000 + b) - 1; }
 
   private:
+    // the wrapped type's copy / assignment may throw (param copythrows) - always before it touched anything, so the operation
+    // that was interrupted has no effect on the register
+    static void may_throw(const char* kind)
+    {
+        if (step_may_throw(kind, g_cell.copyThrowsLeft)) {
+            log_ev("throw", "reg", 1, 0, 2);
+            throw CellThrow();
+        }
+    }
     void take(const Reg& o)  // construct from o: the new object is always a local one
     {
         if (o.shared && scheduled()) {
-            simple_point("rb");
+            may_throw("rb");
             a = o.a;
             log_ev("rb", "reg", 1, a);
             simple_point("re");
@@ -235,14 +244,14 @@ class Reg {
     void assign(const Reg& o)
     {
         if (shared && scheduled()) {
-            simple_point("cb");
+            may_throw("cb");
             a = o.a;
             log_ev("cb", "reg", 1, a);
             simple_point("ce");
             b = o.b;
             log_ev("ce", "reg", 1, b);
         } else if (o.shared && scheduled()) {
-            simple_point("rb");
+            may_throw("rb");
             a = o.a;
             log_ev("rb", "reg", 1, a);
             simple_point("re");
